@@ -20,6 +20,7 @@ import (
 
 type pktWeights struct {
 	send, relay, ackRelay, replay, mutateRecv, mutateAck, ackConflict, commit, update int
+	plant int // planted high-sequence packets (commitment injected with the keeper setter)
 	cbErr int // percentage of sends whose destination callback makes CallPacket return an error
 }
 
@@ -174,7 +175,7 @@ func (g *pktGen) maybeCommit(c *pktChain) {
 func (g *pktGen) step() {
 	g.steps++
 	wt := g.wt
-	switch g.pick(wt.send, wt.relay, wt.ackRelay, wt.replay, wt.mutateRecv, wt.mutateAck, wt.ackConflict, wt.commit, wt.update) {
+	switch g.pick(wt.send, wt.relay, wt.ackRelay, wt.replay, wt.mutateRecv, wt.mutateAck, wt.ackConflict, wt.commit, wt.update, wt.plant) {
 	case 0:
 		g.doSend()
 	case 1:
@@ -198,7 +199,34 @@ func (g *pktGen) step() {
 			g.w.updateClient(c, o.name, g.rng.Intn(2))
 			g.maybeCommit(c)
 		}
+	case 9:
+		g.doPlant()
 	}
+}
+
+var pktBoundarySeqs = []uint64{1<<63 - 1, 1 << 63, 1<<63 + 1, 1<<64 - 1, 1<<64 - 2, 1 << 62}
+
+// doPlant injects the commitment of a packet with a sequence at / beyond the int64 boundary into a source chain.
+func (g *pktGen) doPlant() {
+	w := g.w
+	src := w.chains[g.rng.Intn(3)]
+	dst := w.chains[g.rng.Intn(3)]
+	for dst == src {
+		dst = w.chains[g.rng.Intn(3)]
+	}
+	if src == w.chains[1] && dst == w.chains[2] {
+		// no token bound on chain 2 for chain 1's base token: the receive would end in an error acknowledgement whose
+		// refund on the source pays out escrow that a planted packet never paid in (and starves genuine refunds)
+		dst = w.chains[0]
+	}
+	seq := pktBoundarySeqs[g.rng.Intn(len(pktBoundarySeqs))]
+	if g.rng.Intn(3) == 0 {
+		seq = 1<<62 | g.rng.Uint64() // random high sequence
+	}
+	if s := w.plant(src, dst, seq, int64(1+g.rng.Intn(500))); s != nil {
+		w.r.Nontrivial("plant:" + s.p.SrcChain + ">" + s.p.DstChain + ":" + fmt.Sprint(s.p.Sequence))
+	}
+	g.maybeCommit(src)
 }
 
 func (g *pktGen) doSend() {
@@ -887,15 +915,15 @@ func (g *pktGen) doAckConflict() {
 }
 
 func TestC01(t *testing.T) {
-	pktRun(t, "C01", pktWeights{send: 14, relay: 14, ackRelay: 8, replay: 40, commit: 4, update: 4, cbErr: 24})
+	pktRun(t, "C01", pktWeights{send: 14, relay: 14, ackRelay: 8, replay: 40, commit: 4, update: 4, plant: 4, cbErr: 24})
 }
 
 func TestC05(t *testing.T) {
-	pktRun(t, "C05", pktWeights{send: 16, relay: 16, ackRelay: 14, replay: 4, mutateAck: 8, ackConflict: 34, commit: 4, update: 4, cbErr: 30})
+	pktRun(t, "C05", pktWeights{send: 16, relay: 16, ackRelay: 14, replay: 4, mutateAck: 8, ackConflict: 34, commit: 4, update: 4, plant: 3, cbErr: 30})
 }
 
 func TestC02(t *testing.T) {
-	pktRun(t, "C02", pktWeights{send: 14, relay: 8, ackRelay: 8, replay: 2, mutateRecv: 32, mutateAck: 28, ackConflict: 2, commit: 3, update: 3, cbErr: 26})
+	pktRun(t, "C02", pktWeights{send: 14, relay: 8, ackRelay: 8, replay: 2, mutateRecv: 32, mutateAck: 28, ackConflict: 2, commit: 3, update: 3, plant: 3, cbErr: 26})
 }
 
 // pktSwapCase flips the case of the first letter (a name differing only in case).
